@@ -99,6 +99,17 @@ def transcript(sc, d):
                                          'describe': wd.describe(), 'warnings': [str(c.message) for c in caught],
                                          'hypernyms': [[y.id, [t.id for t in y.hypernyms()], [[r.name, r.lexicon().id, t.id] for r, t in y.relation_map().items()]]
                                                        for y in wd.synsets()]}
+        # a taxonomy borrowed through an expand lexicon, with several placeholder synsets in common
+        if any(l.id == 'xl' for l in wn.lexicons()):
+            wx2 = wn.Wordnet('xl:1', expand='xe:1')
+            p_, q_ = wx2.synset('xl-p'), wx2.synset('xl-q')
+            ref2 = lambda s_: [s_.id, s_._ili]
+            out['borrowed_taxonomy'] = {
+                'lch': [[ref2(x) for x in wn.taxonomy.lowest_common_hypernyms(a_, b_, simulate_root=r_)] for a_, b_ in ((p_, q_), (q_, p_)) for r_ in (False, True)],
+                'common': [ref2(x) for x in wn.taxonomy.common_hypernyms(p_, q_)],
+                'path': [[ref2(x) for x in wn.taxonomy.shortest_path(a_, b_, simulate_root=True)] for a_, b_ in ((p_, q_), (q_, p_))],
+                'paths': [[ref2(x) for x in pth] for pth in p_.hypernym_paths()],
+                'sim': [repr(sim.wup(p_, q_, simulate_root=True)), repr(sim.path(p_, q_, simulate_root=True))]}
         # lookups with a lemmatizer
         lw = wn.Wordnet('a:1', lemmatizer=Morphy(wn.Wordnet('a:1')))
         out['lookups'] = [[q, [x.id for x in lw.words(q)], [x.id for x in lw.synsets(q)], [x.id for x in wn.words(q)]] for q in sc['queries']]
